@@ -1,4 +1,5 @@
 import PynguinModel.Lemmas.StackMachine
+import PynguinModel.Lemmas.Callbacks
 import PynguinModel.Generated.C01Snippets
 /-!
 # C01 — instrumentation does not change the behaviour of the module under test
@@ -21,8 +22,19 @@ Property theorems (for ALL stacks, worlds, outcomes of the original instructions
                        observe-only; every setup action of the enum is stack-neutral;
 * `C01`                the instantiation: sequences built from generated used shapes.
 
-The proviso "every tracer callback returns normally and does not touch the module's state" is the
-callbacks' own obligation (C04/C05, and the differential runs of harness/c01.py).
+The callbacks themselves (namespace `PynguinModel.Callbacks`, model in Model/Callbacks.lean):
+
+* `compare_callback_raises_iff`, `bool_callback_raises_iff`, `compare_callback_records`   the predicate
+                       callbacks of the branch tracer raise exactly what the comparison / truth test
+                       of the module raises, whatever the distance estimates (converse user operators)
+                       raise or return; `C01_callbacks_full_cex`: not for BaseException-only classes;
+* `provider_no_user_calls`, `provider_pool_adds`   the seeding callbacks of `DynamicConstantProvider`
+                       apply no operator / method to an operand whose class could override it;
+                       `strings_isinstance_cex`, `startswith_isinstance_cex`: why the guards must be
+                       exact-type checks.
+
+What remains of the proviso "every tracer callback leaves the module's state alone": the tracer's own
+evaluation of the comparison / truth test / membership (known findings) and C04/C05.
 -/
 namespace PynguinModel.StackMachine
 
@@ -277,3 +289,166 @@ example : overrideNeutral [.swap 2, .copy 2]
   decide
 
 end PynguinModel.StackMachine
+
+namespace PynguinModel.Callbacks
+
+/-! ## The callbacks may only observe (Model/Callbacks.lean) -/
+
+/-- `_missed_branch_distance`: whatever `Exception` the estimate raises and whatever it returns
+(0.0, negative, NaN …), the result is a distance `> 0.0`; nothing is raised. -/
+theorem missedBranchDistance_ok (est : Out F) (h : ∀ e, est = .error e → e.isException = true) :
+    ∃ d, missedBranchDistance est = .ok d ∧ d.gtZero = true := by
+  cases est with
+  | error e => exact ⟨.posInf, by simp [missedBranchDistance, h e rfl], rfl⟩
+  | ok d =>
+    by_cases hd : d.gtZero = true
+    · exact ⟨d, by simp [missedBranchDistance, hd], hd⟩
+    · exact ⟨.posInf, by simp [missedBranchDistance, hd], rfl⟩
+
+/-- **The compare callback raises exactly what the module's own comparison raises.**  For every
+outcome of the comparison and all outcomes of the two distance estimates (which apply converse /
+reflected user operators and may raise any `Exception`, or yield 0.0 / NaN / negative values):
+`executed_compare_predicate` raises `e` iff `compare(val1, val2)` itself raises `e` — in particular it
+returns normally whenever the comparison of the module succeeds, and no assertion of
+`_update_metrics` fails. -/
+theorem compare_callback_raises_iff (primary : Out Bool) (td fd : Out F)
+    (htd : ∀ e, td = .error e → e.isException = true)
+    (hfd : ∀ e, fd = .error e → e.isException = true) (e : Exc) :
+    executedComparePredicate primary td fd = .error e ↔ primary = .error e := by
+  obtain ⟨dt, hdt, hdt0⟩ := missedBranchDistance_ok td htd
+  obtain ⟨df, hdf, hdf0⟩ := missedBranchDistance_ok fd hfd
+  cases primary with
+  | error e' => simp [executedComparePredicate, compareDistances]
+  | ok b =>
+    cases b
+    · cases dt <;> simp_all [executedComparePredicate, compareDistances, Except.map, updateMetrics,
+        F.gtZero, F.geZero, F.isZero]
+    · cases df <;> simp_all [executedComparePredicate, compareDistances, Except.map, updateMetrics,
+        F.gtZero, F.geZero, F.isZero]
+
+/-- what the compare callback records: 0.0 for the branch taken, a distance `> 0.0` for the other -/
+theorem compare_callback_records (primary : Out Bool) (td fd : Out F)
+    (htd : ∀ e, td = .error e → e.isException = true)
+    (hfd : ∀ e, fd = .error e → e.isException = true) (b : Bool) (hp : primary = .ok b) :
+    ∃ d, d.gtZero = true ∧
+      executedComparePredicate primary td fd = .ok (if b then (F.zero, d) else (d, F.zero)) := by
+  obtain ⟨dt, hdt, hdt0⟩ := missedBranchDistance_ok td htd
+  obtain ⟨df, hdf, hdf0⟩ := missedBranchDistance_ok fd hfd
+  subst hp
+  cases b
+  · refine ⟨dt, hdt0, ?_⟩
+    cases dt <;> simp_all [executedComparePredicate, compareDistances, Except.map, updateMetrics,
+        F.gtZero, F.geZero, F.isZero]
+  · refine ⟨df, hdf0, ?_⟩
+    cases df <;> simp_all [executedComparePredicate, compareDistances, Except.map, updateMetrics,
+        F.gtZero, F.geZero, F.isZero]
+
+/-- **The truth-test callback raises exactly what `if value:` raises** (the estimate
+`_falsy_distance` calls `len(value)` / `abs(value)` / `float(…)`, user operators that may raise). -/
+theorem bool_callback_raises_iff (truth : Out Bool) (falsy : Out F)
+    (hf : ∀ e, falsy = .error e → e.isException = true) (e : Exc) :
+    executedBoolPredicate truth falsy = .error e ↔ truth = .error e := by
+  obtain ⟨d, hd, hd0⟩ := missedBranchDistance_ok falsy hf
+  cases truth with
+  | error e' => simp [executedBoolPredicate]
+  | ok b =>
+    cases b
+    · simp [executedBoolPredicate, updateMetrics, F.geZero, F.isZero]
+    · cases d <;> simp_all [executedBoolPredicate, updateMetrics, F.gtZero, F.geZero, F.isZero]
+
+/-- the statement without the restriction to `Exception` subclasses -/
+def C01_callbacks_full : Prop :=
+  ∀ (primary : Out Bool) (td fd : Out F) (e : Exc),
+    executedComparePredicate primary td fd = .error e ↔ primary = .error e
+
+/-- … does not hold: `except Exception` lets an exception that derives from `BaseException` only
+(raised by the converse operator inside the estimate) escape although the comparison succeeded. -/
+theorem C01_callbacks_full_cex : ¬ C01_callbacks_full := by
+  intro h
+  have := (h (.ok true) (.ok .pos) (.error (.base 0)) (.base 0)).mp rfl
+  cases this
+
+/-- **The seeding callbacks run no user code.**  For every entry point the seeding adapter installs,
+every length limit and ALL operands (plain values, instances of subclasses of str / bytes / int / … with
+overridden operators, enum members, unrelated objects): no operator or method is applied to a value
+whose class could override it. -/
+theorem provider_no_user_calls (maxLen : Nat) (entry : Entry) (v p : Operand) :
+    userCalls (provider maxLen entry v p) = [] := by
+  rw [userCalls_eq_nil_iff]
+  cases entry with
+  | addValue => exact addValue_noUser maxLen 0 v
+  | strings name =>
+    simp only [provider, addValueForStrings]
+    split
+    · exact noUser_nil
+    · split
+      · exact stringsBody_noUser maxLen v name _ (by assumption)
+      · exact noUser_nil
+  | startswith =>
+    simp only [provider, addValueForStartswith, addValueForStartswithWith]
+    split
+    · rename_i hg
+      obtain ⟨hv, hp⟩ := textPairExact_exact hg
+      exact (binaryAdd_noUser 1 0 p v hp hv).append (addValue_noUser _ _ _)
+    · exact noUser_nil
+  | endswith =>
+    simp only [provider, addValueForEndswith, addValueForEndswithWith]
+    split
+    · rename_i hg
+      obtain ⟨hv, hp⟩ := textPairExact_exact hg
+      exact (binaryAdd_noUser 0 1 v p hv hp).append (addValue_noUser _ _ _)
+    · exact noUser_nil
+
+/-- only values whose type is exactly one of the five constant types reach the pool, and strings /
+bytes only up to the length limit -/
+theorem provider_pool_adds (maxLen : Nat) (entry : Entry) (v p : Operand) :
+    PoolOk maxLen (provider maxLen entry v p) := by
+  cases entry with
+  | addValue => exact addValue_poolOk maxLen 0 v
+  | strings name =>
+    simp only [provider, addValueForStrings]
+    split
+    · exact poolOk_nil _
+    · split
+      · unfold stringsBody
+        refine ((addValue_poolOk _ _ _).append (poolOk_dispatch_cons _ _ _ (poolOk_nil _))).append ?_
+        split
+        · exact (poolOk_map_dispatch _ _ _ _).append (addValue_poolOk _ _ _)
+        · exact (poolOk_map_dispatch _ _ _ _).append (addValue_poolOk _ _ _)
+      · exact poolOk_nil _
+  | startswith =>
+    simp only [provider, addValueForStartswith, addValueForStartswithWith]
+    split
+    · exact (poolOk_dispatch_cons _ _ _ (poolOk_dispatch_cons _ _ _ (poolOk_nil _))).append
+        (addValue_poolOk _ _ _)
+    · exact poolOk_nil _
+  | endswith =>
+    simp only [provider, addValueForEndswith, addValueForEndswithWith]
+    split
+    · exact (poolOk_dispatch_cons _ _ _ (poolOk_dispatch_cons _ _ _ (poolOk_nil _))).append
+        (addValue_poolOk _ _ _)
+    · exact poolOk_nil _
+
+/-- why the guard of `add_value_for_strings` must be `type(value) is str`: with `isinstance(value, str)`
+the lookup lambda calls `value.isalnum()` and `format(value)` of a str subclass -/
+theorem strings_isinstance_cex :
+    userCalls (addValueForStringsIsinstance 50 ⟨.str, false, 1, true⟩ "isalnum")
+      = [.user 0 "isalnum", .user 0 "__format__"] := by decide
+
+/-- why the guard of `add_value_for_startswith` must compare exact types: with an isinstance-based
+guard `prefix + value` runs `__add__` / `__radd__` of str subclasses -/
+theorem startswith_isinstance_cex :
+    userCalls (addValueForStartswithWith textPairIsinstance 50 ⟨.str, false, 7, false⟩ ⟨.str, false, 3, false⟩)
+      = [.user 1 "__add__", .user 0 "__radd__"] := by decide
+
+/-! non-vacuity -/
+example : executedComparePredicate (.ok true) (.ok .zero) (.error (.other 3)) = .ok (.zero, .posInf) := rfl
+example : executedComparePredicate (.ok false) (.ok .nan) (.ok .pos) = .ok (.posInf, .zero) := rfl
+example : executedBoolPredicate (.ok true) (.error .typeError) = .ok (.zero, .posInf) := rfl
+example : provider 50 .startswith ⟨.str, true, 7, false⟩ ⟨.str, true, 3, false⟩
+    = [.prim "__add__", .prim "__radd__", .prim "__len__", .prim "__hash__", .poolAdd .str 10] := by decide
+example : provider 50 (.strings "isalnum") ⟨.str, true, 3, true⟩ ⟨.none, true, 0, false⟩
+    = [.prim "__len__", .prim "__hash__", .poolAdd .str 3, .prim "isalnum", .prim "__format__",
+       .prim "__len__", .prim "__hash__", .poolAdd .str 4] := by decide
+
+end PynguinModel.Callbacks
